@@ -52,3 +52,47 @@ def run_l1(ctx, nhist, monitor, theorems, need=()):
     elif bad:
         ctx.notes.append("%d model/implementation disagreements accompany the monitor failures" % len(bad))
     return len(bad), len(fails)
+
+
+def run_l2(ctx, templates, n, monitor, need=(), label="engine", run_kw=None):
+    """Run `n` generated workflows (round-robin over `templates`) on the real engine under virtual time and
+    apply monitor(spec, rec, obs) -> (failures:list[str], facts:dict of counters) to each.
+    A failure is a concrete failing run: VIOLATION with (template, seed, schedule) as replay."""
+    import random
+    from suites import engine as E
+    rng = random.Random(ctx.seed * 131 + sum(map(ord, ctx.pid)))
+    fails, facts_total = [], {}
+    for i in range(n):
+        seed = rng.randrange(1 << 30)
+        tmpl = templates[i % len(templates)]
+        spec, rec, obs = E.run_case(tmpl, seed, **(run_kw or {}))
+        why, facts = monitor(spec, rec, obs)
+        for k, v in (facts or {}).items():
+            facts_total[k] = facts_total.get(k, 0) + int(v)
+        if obs.stuck:
+            facts_total["stuck"] = facts_total.get("stuck", 0) + 1
+        ctx.count(1, ("l2", tmpl.__name__, len(rec.log), len(obs.stream), tuple(sorted((facts or {}).items()))))
+        if i < 3:
+            ctx.sample(dict(kind="l2-run", template=tmpl.__name__, seed=seed, facts=facts,
+                            actions=[str(a) for a in obs.actions[:6]],
+                            outcome=(type(obs.exception).__name__ if obs.exception else repr(obs.result))[:80]), limit=8)
+        for w in why:
+            fails.append(dict(template=tmpl.__name__, seed=seed, why=w, actions=[str(a) for a in obs.actions]))
+    ctx.programs += n
+    ctx.suite(label, runs=n, failures=len(fails), **facts_total)
+    for k in need:
+        k, m = (k if isinstance(k, tuple) else (k, 1))
+        ctx.require_coverage(label, k, facts_total.get(k, 0), m)
+    return fails, facts_total
+
+
+def report_l2(ctx, fails, limit=3):
+    seen = set()
+    for f in fails:
+        key = f["why"].split(":")[0][:60]
+        if key in seen or len(seen) >= limit:
+            continue
+        seen.add(key)
+        ctx.violation("%s fails on the real engine: %s" % (ctx.pid, f["why"]),
+                      dict(kind="implementation-monitor/L2", input=f,
+                           replay_hint="suites.engine.run_case(engine_specs.<template>, seed) reproduces the run"))
